@@ -307,7 +307,13 @@ class CloseHistories(Contract):
         for g in ws.groups:
             if type(g).__name__ == "DrillholeGroup":
                 for h in g.children:
-                    snap[f"hole:{h.uid}"] = {"name": h.name, "data": {c.name: np.asarray(c.values).tolist() for c in h.children if hasattr(c, "values") and getattr(c, "values", None) is not None}}
+                    # concatenated holes load their data on demand: ask by name
+                    data = {}
+                    for name in sorted(h.get_data_list()):
+                        got = h.get_data(name)
+                        if got and got[0].values is not None:
+                            data[name] = np.asarray(got[0].values).tolist()
+                    snap[f"hole:{h.uid}"] = {"name": h.name, "data": data}
         return snap
 
     def _run(self, d, case):
